@@ -2,7 +2,7 @@
 from ..core.model import Program
 from ..core.report import CheckContext
 from ..core.resolve import Resolver
-from ..rules import scale
+from ..rules import inval, scale
 from .common import run_control
 
 
@@ -10,6 +10,9 @@ def analyse(ctx: CheckContext, p: Program):
     r = Resolver(p)
     scale.check_scale(ctx, p, r)
     scale.check_graph_roles(ctx, p, r)
+    # rows inserted later (constant-enthalpy projection, pocket cutting, utility levels) are written through fresh views
+    eng = inval.InvalEngine(p, r)
+    inval.check_views(ctx, eng, r.pipeline_cone())
 
 
 def run(ctx: CheckContext):
@@ -18,6 +21,7 @@ def run(ctx: CheckContext):
     ctx.floor("SCALE", 4)
     ctx.floor("SCALE-ROLE", 4)
     ctx.floor("SCALE-GRAPH", 3)
+    ctx.floor("INVAL-I1", 4)
     ctx.assumptions += [
         "decides temperature-scale coherence only; per-row integrals, the cold-curve offset and tolerances are numeric and NOT decided",
         "tables are identified by construction (ProblemTable({T: ...}) / create_problem_table_with_t_int); scale flags are plain boolean parameters",
